@@ -221,7 +221,7 @@ def jsd(vc, cfg):
     log2 = vc.log(2)
     spec = (sum(ph[i] * vc.log(ph[i] / mh[i]) for i in range(k)) / log2 + sum(qh[i] * vc.log(qh[i] / mh[i]) for i in range(k)) / log2) / 2
     if vc.symbolic:
-        vc.prove("divergence == Jensen-Shannon spec (bits)", vc.and_(vc.is_defined(d_pq), vc.eq(d_pq, spec)))
+        e_spec = vc.lemma("divergence == Jensen-Shannon spec (bits)", vc.and_(vc.is_defined(d_pq), vc.eq(d_pq, spec)))
     else:
         vc.prove("divergence == Jensen-Shannon spec (bits)", vc.eq(d_pq, spec))
     o2 = vc.call(J, q, p)
@@ -235,12 +235,16 @@ def jsd(vc, cfg):
     o3 = vc.call(J, a * p, b * q)
     if vc.returns("rescaled-terminates", o3):
         if vc.symbolic:
-            # cuts: the normalised vectors coincide, so the log arguments coincide (congruence)
+            # cuts: the rescaled call equals the spec of the rescaled vectors (same obligation as above, for a*p, b*q); the two specs
+            # are equal because the normalised vectors coincide (If-free identity, log arguments identified by congruence); transitivity
             pa, qb = [a * p[i] / sum(a * p[j] for j in range(k)) for i in range(k)], [b * q[i] / sum(b * q[j] for j in range(k)) for i in range(k)]
-            for i in range(k):
-                vc.lemma(f"cut:normalised p[{i}] unchanged", vc.eq(pa[i], ph[i]))
-                vc.lemma(f"cut:normalised q[{i}] unchanged", vc.eq(qb[i], qh[i]))
-        vc.prove("invariant to normalisation of the inputs", vc.eq(o3.value, d_pq))
+            ma = [(pa[i] + qb[i]) / 2 for i in range(k)]
+            spec_ab = (sum(pa[i] * vc.log(pa[i] / ma[i]) for i in range(k)) / log2 + sum(qb[i] * vc.log(qb[i] / ma[i]) for i in range(k)) / log2) / 2
+            e1 = vc.lemma("cut:rescaled call == spec of the rescaled vectors", vc.and_(vc.is_defined(o3.value), vc.eq(o3.value, spec_ab)))
+            e2 = vc.lemma("cut:spec of the rescaled vectors == spec", vc.eq(spec_ab, spec))
+            vc.prove_from("invariant to normalisation of the inputs", vc.eq(o3.value, d_pq), [e_spec, e1, e2], [o3.value, d_pq, spec, spec_ab])
+        else:
+            vc.prove("invariant to normalisation of the inputs", vc.eq(o3.value, d_pq))
     o4 = vc.call(J, p, a * p)
     if vc.returns("proportional-terminates", o4):
         vc.prove("zero for proportional inputs", vc.eq(o4.value, 0, scale=1.0))
